@@ -21,6 +21,7 @@ type Ev struct {
 	SQL string
 	DB  string
 	SV  []byte // status vars
+	CS  []int  // the session charset the status vars carry (client, connection, server collation); nil: none
 	// tablemap / rows
 	Tbl   *Table
 	Rows  []RowPair
@@ -533,8 +534,57 @@ func verbsLog(r *rand.Rand, cfg WireCfg, gp GenParams) *Log {
 		}
 		f.Units = append(f.Units, u)
 	}
+	l.assignStatusVars(r)
 	l.Layout()
 	return l
+}
+
+// assignStatusVars gives every query event of the log a block of status variables as a MySQL master writes them (a
+// subset of flags2, sql_mode, catalog, auto_increment, charset, time zone, ... in the server's order): with and without
+// the session charset, and with different charsets from one statement to the next.
+func (l *Log) assignStatusVars(r *rand.Rand) {
+	mode := r.Intn(4) // 0: no query event has status vars; 1: all have the charset; 2, 3: mixed
+	if mode == 0 {
+		return
+	}
+	for _, f := range l.Files {
+		for _, u := range f.Units {
+			for _, e := range u.Evs {
+				if e.K != "query" {
+					continue
+				}
+				var sv []byte
+				if r.Intn(2) == 0 {
+					sv = append(append(sv, 0), randBytes(r, 4)...)
+				}
+				if r.Intn(2) == 0 {
+					sv = append(append(sv, 1), randBytes(r, 8)...)
+				}
+				if r.Intn(3) == 0 {
+					sv = append(append(sv, 6, 3), "std"...)
+				}
+				if r.Intn(4) == 0 {
+					sv = append(append(sv, 3), randBytes(r, 4)...)
+				}
+				e.CS = nil
+				if mode == 1 || r.Intn(2) == 0 {
+					cs := []int{pick(r, 8, 33, 45, 63, 255, r.Intn(65536)), pick(r, 8, 33, 45, 224, r.Intn(65536)), pick(r, 8, 33, 255, r.Intn(65536))}
+					sv = append(sv, 4)
+					for _, c := range cs {
+						sv = append(sv, le16(uint16(c))...)
+					}
+					e.CS = cs
+				}
+				if r.Intn(3) == 0 {
+					sv = append(append(sv, 5, 6), "SYSTEM"...)
+				}
+				if r.Intn(4) == 0 {
+					sv = append(append(sv, 7), randBytes(r, 2)...)
+				}
+				e.SV = sv
+			}
+		}
+	}
 }
 
 func optTail(r *rand.Rand) []byte {
@@ -590,6 +640,7 @@ func GenLog(r *rand.Rand, cfg WireCfg, gp GenParams, bases []uint32) *Log {
 		}
 		f.Units = append(f.Units, genUnit(r, k, tables, gp, &ts, cfg.Gtid))
 	}
+	l.assignStatusVars(r)
 	l.Layout()
 	return l
 }
